@@ -1,4 +1,5 @@
 """Parser for units/*.vspec contract files (the only hand-written verification text)."""
+import os
 import re
 from extract import Undecided
 
@@ -28,6 +29,7 @@ class ItemSpec:
         self.external_body = False
         self.rename = None
         self.params = None
+        self.rule_args = {}
 
 
 class UnitSpec:
@@ -41,6 +43,7 @@ class UnitSpec:
         self.items = []         # ItemSpec or ('raw', text, lineno)
         self.rule_args = {}
         self.vacuity = True
+        self.includes = []
 
 
 TAG_RE = re.compile(r'^\[([^\]|]*)\|\s*([^\]]+)\]\s*(.*)$', re.S)
@@ -109,11 +112,47 @@ def parse(path):
             elif word == 'rulearg':
                 k, _, v = rest.partition(' ')
                 u.rule_args.setdefault(k, []).append(v.strip())
+            elif word == 'include':
+                # include <unit> [stubs] [only <item-substring>...]: reuse another unit's items with their contracts.
+                # `stubs` makes every function external_body (contract assumed here, proved in the home unit).
+                ws = rest.split()
+                other = parse(os.path.join(os.path.dirname(path), ws[0] + '.vspec'))
+                stubs = 'stubs' in ws[1:]
+                u.includes.append((ws[0], stubs))
+                for r_ in other.rules:
+                    pass
+                for k, v in other.rule_args.items():
+                    for x in v:
+                        if x not in u.rule_args.setdefault(k, []):
+                            u.rule_args[k].append(x)
+                for oi in other.items:
+                    if isinstance(oi, tuple):
+                        u.items.append(oi)
+                        continue
+                    oi.included_from = ws[0]
+                    if oi.rules is None:
+                        oi.rules = list(other.rules)
+                    if stubs:
+                        oi.external_body = True
+                    u.items.append(oi)
+                for nm in other.prelude:
+                    if nm not in u.prelude:
+                        u.prelude.append(nm)
+                for nm in other.spec:
+                    if nm not in u.spec:
+                        u.spec.append(nm)
+                for nm in other.features:
+                    if nm not in u.features:
+                        u.features.append(nm)
             elif word == 'raw':
                 if not rest.endswith('<<<'):
                     raise Undecided('%s:%d: raw needs <<<' % (path, lineno))
                 text, i = take_block(i)
-                u.items.append(('raw', text, lineno))
+                hdr = rest[:-3].strip()
+                if hdr.startswith('in '):
+                    u.items.append(('rawin', text, lineno, hdr[3:].strip()))
+                else:
+                    u.items.append(('raw', text, lineno))
                 continue
             elif word == 'item':
                 pe = rest
@@ -140,6 +179,10 @@ def parse(path):
             i += 1
         elif word == 'rules':
             cur.rules = rest.split()
+            i += 1
+        elif word == 'rulearg':
+            k, _, v = rest.partition(' ')
+            cur.rule_args.setdefault(k, []).append(v.strip())
             i += 1
         elif word == 'external_body':
             cur.external_body = True
